@@ -281,6 +281,8 @@ def dtype_of(spec, default='real'):
         return 'int'
     if spec is bool:
         return 'bool'
+    if getattr(spec, '__name__', None) in ('_int', '_float'):    # the interpreter's shadowed builtins int / float
+        return 'int' if spec.__name__ == '_int' else 'real'
     raise AnalysisError(f'dtype {spec!r} has no model')
 
 
